@@ -698,7 +698,7 @@ func checkC11(c *vlib.Ctx) {
 		return
 	}
 
-	rounds := c.N(6, 300)
+	rounds := c.N(6, 120)
 	perRound := c.N(25, 50)
 	rr := c.Rand("rounds")
 	exe, err := os.Executable()
@@ -755,7 +755,7 @@ func checkC11(c *vlib.Ctx) {
 			reportC11(c, rep)
 		}
 	}
-	c.Floor(c.N(60, 5000))
+	c.Floor(c.N(60, 2000))
 }
 
 func tail(s string, n int) string {
